@@ -475,6 +475,30 @@ def rule_joinfirst(ctx):
     ctx.ob("joinfirst", pa, body[joins[0]] if joins else pa.node, "for p in workers: p.join()  before  parallel_merging(...)",
            "every worker has finished before any of its sketches is merged", okk,
            "" if okk else "no loop joining every worker precedes the first merge")
+    # the descriptors handed to a worker are in the documented order (alphabetical: cms, hh, hll) -- the callback receives its
+    # sketches positionally in exactly that order
+    F = facts_of(ctx)
+    w = F.walk(pa)
+    order = {"cms": 0, "hh": 1, "hll": 2}
+
+    def tag_of(ev):
+        a = ev.args[0] if ev.args else None
+        if isinstance(a, Tup) and len(a.items) == 3 and isinstance(a.items[0], Opaque) and isinstance(a.items[0].desc, tuple) \
+                and len(a.items[0].desc) == 2 and a.items[0].desc[0] == "const" and a.items[0].desc[1] in order:
+            return a.items[0].desc[1]
+        return None
+    descs = [e for e in w.events if e.kind == "call" and isinstance(e.node, ast.Call) and isinstance(e.node.func, ast.Attribute)
+             and e.node.func.attr == "append" and tag_of(e) is not None and e.loops]
+    res = []
+    for le in [x for x in w.events if x.kind == "loopend" and any(d.loops[0] is x.loop for d in descs)]:
+        seq = [tag_of(d) for d in on_path(w.events, le) if d in descs and d.loops[0] is le.loop]
+        okk = seq == sorted(set(seq), key=lambda t: order[t])
+        res.append((okk, "descriptors appended in the order %s" % seq if okk else
+                    "a worker's descriptors are built in the order %s, not alphabetically (cms, hh, hll): the callback receives its sketches in other positions than documented" % seq,
+                    fact_strs(le)))
+    agg(ctx, "joinfirst", pa, descs[0].node if descs else pa.node, "sketch.append((tag, args, shm name)) in the worker start loop",
+        "each worker (and so the callback) receives its sketches in the documented alphabetical order cms, hh, hll",
+        res or [(False, "no (tag, args, block name) descriptors are built for the workers", [])])
     # each X_array is merged into X_final and X_array holds the sketches created for the workers
     roles = sketch_roles(pa)
     for tag, fac in (("cms", "CountMin"), ("hh", "HeavyHitters"), ("hll", "HyperLogLog")):
